@@ -126,19 +126,31 @@ type cholNode struct {
 }
 
 type histCtx struct {
-	t        *vlib.T
-	maxDepth int
-	nodes    int64
-	failed   int
-	path     []string
-	outcomes map[string]int64
+	t           *vlib.T
+	maxDepth    int
+	nodes       int64
+	failed      int
+	failedKnown int
+	path        []string
+	outcomes    map[string]int64
 }
 
 func (h *histCtx) failf(class, format string, a ...any) {
-	h.failed++
-	if h.failed > 6 {
-		h.t.Count("alarm:"+alarmName(class), 1)
-		return
+	// vlib keeps at most 8 sub-violations per case: at most 2 of them may be spent on
+	// named finding classes so that these can never crowd out an unclassified alarm.
+	if class != "" {
+		h.failedKnown++
+		if h.failedKnown > 2 {
+			h.t.Count("alarm:"+alarmName(class), 1)
+			return
+		}
+	} else {
+		h.failed++
+		if h.failed > 6 {
+			h.t.Count("alarm:"+alarmName(class), 1)
+			h.t.Incomplete("more than 6 unclassified alarms in one history case")
+			return
+		}
 	}
 	msg := fmt.Sprintf(format, a...)
 	h.t.Count("alarm:"+alarmName(class), 1)
@@ -434,9 +446,28 @@ func (h *histCtx) cholStep(parent *cholNode, oi int, depth int) {
 	}
 	// Cond: updated factorizations estimate the norm of A by |Uᵀ||U| (documented
 	// overestimate, at most n times larger); Scale and Clone copy the parent's value.
-	if c, fc := recv.Cond(), fresh.Cond(); !(c >= kappa/3 && c <= 1.01*fn*kappa) || math.IsNaN(c) {
-		h.failf("", "Cond = %.6g after %s; reference %.6g (fresh factorization %.6g), accepted [ref/3, n·ref]", c, op.name, kappa, fc)
+	// Absolute band: the estimate is a lower bound of the true value times the norm
+	// overestimate (<= n); from below only gross errors are rejected (see lowCond).
+	if c, fc := recv.Cond(), fresh.Cond(); !(c >= kappa/100 && c <= 1.01*fn*kappa) || math.IsNaN(c) {
+		h.failf("", "Cond = %.6g after %s; reference %.6g (fresh factorization %.6g), accepted [ref/100, n·ref]", c, op.name, kappa, fc)
 		return
+	}
+	// Exact consistency: Scale and Clone carry the parent's value over (scaling does
+	// not change a condition number); every other operation recomputes the estimate
+	// from the factor alone, exactly as SetFromU does for the same factor.
+	switch op.kind {
+	case 'S', 'C':
+		if recv.Cond() != parentCond {
+			h.failf("", "Cond = %v after %s, parent had %v", recv.Cond(), op.name, parentCond)
+			return
+		}
+	default:
+		var viaU mat.Cholesky
+		viaU.SetFromU(recv.RawU())
+		if recv.Cond() != viaU.Cond() {
+			h.failf("", "Cond = %v after %s, but SetFromU of the same factor reports %v", recv.Cond(), op.name, viaU.Cond())
+			return
+		}
 	}
 	// a solve
 	b := make([]float64, n2)
@@ -663,8 +694,8 @@ func (h *histCtx) luStep(parent *luNode, oi int, depth int) {
 	}
 	// Cond after an update uses |L||U| as the norm of A (documented overestimate)
 	over := normInf(Lm) * normInf(Um) / normInf(A2)
-	if c := recv.Cond(); !(c >= kappa/3 && c <= kappa*math.Max(over, 1)*1.01) || math.IsNaN(c) {
-		h.failf("", "Cond = %.6g after %s; reference %.6g (accepted [ref/3, ref·|L||U|/|A|])", c, op.name, kappa)
+	if c := recv.Cond(); !(c >= kappa/100 && c <= kappa*math.Max(over, 1)*1.01) || math.IsNaN(c) {
+		h.failf("", "Cond = %.6g after %s; reference %.6g (accepted [ref/100, ref·|L||U|/|A|])", c, op.name, kappa)
 		return
 	}
 	b := make([]float64, n)
